@@ -249,6 +249,72 @@ Fixpoint c13_check (ops : list op) (obs : list cbor) (st : rstate) : option Stri
   | _, _ => Some "observation list length differs from operation list"
   end.
 
+(* ---------- executable specification of C06 on observed traces ---------- *)
+
+Definition obs_sys (o : cbor) : option cbor :=
+  match o with CArray [_; _; sy] => Some sy | _ => None end.
+Definition obs_ems (o : cbor) : option cbor :=
+  match o with CArray [_; e; _] => Some e | _ => None end.
+
+(* device part of the system view that a rejected delivery must leave untouched: send counter + state *)
+Definition dev_untouched (before after : cbor) : bool :=
+  match before, after with
+  | CArray [ds; _; st; _; _], CArray [ds'; _; st'; _; _] => cbor_eqb ds ds' && cbor_eqb st st'
+  | _, _ => false
+  end.
+Definition rdr_untouched (before after : cbor) : bool :=
+  match before, after with
+  | CArray [_; _; _; rs; _], CArray [_; _; _; rs'; _] => cbor_eqb rs rs'
+  | _, _ => false
+  end.
+
+Definition is_next (k : N) (r : role) (n : N) (w : wire) : bool :=
+  match w with
+  | WData (Enc k' nonce _) => (k =? k') && bytes_eqb nonce (iso_iv r n)
+  | _ => false
+  end.
+
+(* kr, kd: key ids of this session; nd / nr: decryption attempts made so far by device / reader *)
+Fixpoint c06_check (kr kd : N) (ops : list op) (obs : list cbor) (prev : cbor) (nd nr : N) : option String.string :=
+  match ops, obs with
+  | [], [] => None
+  | o :: ops', ob :: obs' =>
+    match obs_out ob, obs_sys ob, obs_ems ob with
+    | Some out, Some sy, Some ems =>
+      match o with
+      | OHandleRequest (WData c) =>
+        if is_next kr Reader (nd + 1) (WData c) then
+          if cbor_eqb out (CArray [CUInt 1; CUInt 1]) then Some "the peer's next message in sequence was refused"
+          else c06_check kr kd ops' obs' sy (nd + 1) nr
+        else
+          if negb (cbor_eqb out (CArray [CUInt 1; CUInt 1])) then Some "device acted on a message that is not the peer's next message under the session key"
+          else if negb (dev_untouched prev sy) then Some "a rejected message changed the device state or made it prepare a response"
+          else if negb (cbor_eqb ems (CArray [])) then Some "a rejected message made the device encrypt"
+          else c06_check kr kd ops' obs' sy (nd + 1) nr
+      | OHandleRequest _ =>
+        if negb (cbor_eqb out (CArray [CUInt 1; CUInt 0])) then Some "undecodable session data not reported as a parsing error"
+        else if negb (dev_untouched prev sy) then Some "undecodable session data changed the device state"
+        else c06_check kr kd ops' obs' sy nd nr
+      | OHandleResponse (WData c) =>
+        if is_next kd Device (nr + 1) (WData c) then
+          if cbor_eqb out (CArray [CUInt 2; CUInt 2]) then Some "the peer's next message in sequence was refused"
+          else c06_check kr kd ops' obs' sy nd (nr + 1)
+        else
+          if negb (cbor_eqb out (CArray [CUInt 2; CUInt 2])) then Some "reader acted on a message that is not the peer's next message under the session key"
+          else if negb (rdr_untouched prev sy) then Some "a rejected message changed the reader's send counter"
+          else c06_check kr kd ops' obs' sy nd (nr + 1)
+      | OHandleResponse _ =>
+        match out with
+        | CArray [CUInt 2; CUInt 0] | CArray [CUInt 2; CUInt 1] => c06_check kr kd ops' obs' sy nd nr
+        | _ => Some "undecodable session data not reported as an error by the reader"
+        end
+      | _ => c06_check kr kd ops' obs' sy nd nr
+      end
+    | _, _, _ => Some "malformed observation"
+    end
+  | _, _ => Some "observation list length differs from operation list"
+  end.
+
 Definition api_session (cmd : bytes) (args : list cbor) : option cbor :=
   if bytes_eqb cmd (s "c07.iv") then
     match args with
@@ -285,6 +351,19 @@ Definition api_session (cmd : bytes) (args : list cbor) : option cbor :=
       match ops_of ops with
       | Some (_ :: _ :: o) =>
         Some (match c13_check o obs RAwaiting with
+              | None => ctext "ok"
+              | Some why => CText (s "fail:" ++ bytes_of_string why)
+              end)
+      | _ => None
+      end
+    | _ => None
+    end
+  else if bytes_eqb cmd (s "c06.spec") then
+    match args with
+    | [_; CArray ops; CArray obs] =>
+      match ops_of ops with
+      | Some (_ :: _ :: o) =>
+        Some (match c06_check 0 1 o obs (CArray [CUInt 0; CUInt 1; CArray [CUInt 0]; CUInt 1; CUInt 0]) 1 0 with
               | None => ctext "ok"
               | Some why => CText (s "fail:" ++ bytes_of_string why)
               end)
